@@ -97,6 +97,8 @@ BUILDS = {
         rustflags="-Zsanitizer=thread", zflags=("-Zbuild-std",),
     ),
     "nohooks": Build("nohooks", hooks=False),
+    # exactly what a user ships: guard off, no debug assertions
+    "nohooks-fast": Build("nohooks-fast", profile="fast", hooks=False),
     # the crate's `std` feature instead of `alloc` (std-only code paths)
     "checked-std": Build("checked-std", features=["std", "x25519", "p256", "p384", "p521"]),
 }
